@@ -175,8 +175,27 @@ Fixpoint go (s : st) (tid : Z) (ops : list word) : option (list word) :=
     end
   end.
 
+(* Stress mode, cfg [init; 2]: op [4; gets (thousands); sz] runs a real sender goroutine
+   (back-to-back get(sz)) against a real replenisher goroutine that gives back exactly what
+   was taken, on the real clock, and counts
+   [senders found parked with everything replenished, quota > 0 and an empty channel;
+    pairs that made no progress within the deadline for any other reason].
+   By C17_no_lost_wakeup (all instruction interleavings) both are 0. *)
+Definition stress_obs (op : word) : option word :=
+  match op with [4; _; _] => Some [0; 0] | _ => None end.
+
+Fixpoint stress_go (ops : list word) : option (list word) :=
+  match ops with
+  | [] => Some []
+  | op :: r => match stress_obs op, stress_go r with
+               | Some o, Some os => Some (o :: os)
+               | _, _ => None
+               end
+  end.
+
 Definition run (cfg : word) (ops : list word) : option (list word) :=
   match cfg with
+  | [_; 2] => stress_go ops
   | [i; m] => go (init (z2b m) i) 0 ops
   | _ => None
   end.
@@ -217,8 +236,24 @@ Fixpoint cl_go (i : Z) (mu : bool) (t : trk) (ops obs : list word) : list (Z * Z
     end
   end.
 
+(* clause 11: stress mode: no sender parked with quota > 0, empty channel, nothing in flight
+   clause 12: stress mode: every sender/replenisher pair finished within the deadline *)
+Definition stress_cl (op obs : word) : list (Z * Z * bool) :=
+  match op, obs with
+  | [4; _; _], [a; b] => [(11, a, a =? 0); (12, b, b =? 0)]
+  | _, _ => [(0, 0, false)]
+  end.
+
+Fixpoint stress_cl_go (ops obs : list word) : list (Z * Z * bool) :=
+  match ops, obs with
+  | op :: r, o :: r' => stress_cl op o ++ stress_cl_go r r'
+  | [], [] => []
+  | _, _ => [(0, 0, false)]
+  end.
+
 Definition clauses (cfg : word) (ops obs : list word) : list (Z * Z * bool) :=
   match cfg with
+  | [_; 2] => stress_cl_go ops obs
   | [i; m] => cl_go i (z2b m) (mkt 0 0 false) ops obs
   | _ => [(0, 0, false)]
   end.
